@@ -363,8 +363,13 @@ func runCloseScenario(sc closeSc) (obs closeObs) {
 				return
 			}
 			cnt++
-			if o, ok := e.(*gomavlib.EventChannelOpen); ok {
-				lastCh.Store(o.Channel)
+			switch ev := e.(type) {
+			case *gomavlib.EventChannelOpen:
+				lastCh.Store(ev.Channel)
+			case *gomavlib.EventFrame:
+				if cnt%2 == 0 {
+					n.WriteFrameExcept(ev.Channel, ev.Frame) //nolint  forwarding a received frame
+				}
 			}
 		}
 	}()
